@@ -37,9 +37,30 @@ struct St {
 static FP_SEED: AtomicU64 = AtomicU64::new(0);
 static FP_HITS: AtomicU64 = AtomicU64::new(0);
 
+/// longest time between two consecutive ends of iteration of one poll loop (any app of this process), in ms
+static MAX_POLL_GAP_MS: AtomicU64 = AtomicU64::new(0);
+/// the same per poll-loop thread, so that a scenario can ask about its own app
+static POLL_GAPS: Mutex<Option<std::collections::HashMap<std::thread::ThreadId, u64>>> = Mutex::new(None);
+thread_local! {
+    static LAST_ITERATION_END: std::cell::Cell<Option<Instant>> = const { std::cell::Cell::new(None) };
+}
+
 fn fp_handler(name: &'static str) {
     if !name.starts_with("ws.async") {
         return;
+    }
+    if name == "ws.async.end_of_iteration" {
+        // monitor: the poll loop is one thread per app, so consecutive hits on a thread are consecutive iterations
+        let now = Instant::now();
+        if let Some(prev) = LAST_ITERATION_END.with(|c| c.replace(Some(now))) {
+            let gap = now.duration_since(prev).as_millis() as u64;
+            MAX_POLL_GAP_MS.fetch_max(gap, Ordering::Relaxed);
+            if gap >= 100 {
+                let mut g = POLL_GAPS.lock().unwrap();
+                let e = g.get_or_insert_with(Default::default).entry(std::thread::current().id()).or_insert(0);
+                *e = (*e).max(gap);
+            }
+        }
     }
     let n = FP_HITS.fetch_add(1, Ordering::Relaxed);
     let mut x = FP_SEED.load(Ordering::Relaxed) ^ n.wrapping_mul(0x9E3779B97F4A7C15) ^ fnv(name.as_bytes());
@@ -340,10 +361,12 @@ fn scenario(r: &mut Report, seed: u64, k: u64) {
         let _ = app.run(addr);
     });
     let (done_tx, done_rx) = channel();
-    std::thread::spawn(move || {
+    let poll_thread = std::thread::spawn(move || {
         wsapp.run();
         done_tx.send(Instant::now()).ok();
-    });
+    })
+    .thread()
+    .id();
     for _ in 0..400 {
         if TcpStream::connect(addr).is_ok() {
             break;
@@ -498,7 +521,7 @@ fn scenario(r: &mut Report, seed: u64, k: u64) {
             if c.close_wait_disturbed {
                 r.count("close_replies_not_judged_machine_stalled", 1);
             } else {
-                viol(r, "C12/close-not-answered", format!("client {} sent Close but received no Close frame back ({})", i, c.close_wait));
+                viol(r, "C12/close-not-answered", format!("client {} sent Close but received no Close frame back ({}; longest iteration of this app's poll loop: {} ms)", i, c.close_wait, POLL_GAPS.lock().unwrap().as_ref().and_then(|m| m.get(&poll_thread).copied()).map(|g| g.to_string()).unwrap_or_else(|| "< 100".to_string())));
             }
         }
     }
@@ -551,6 +574,7 @@ fn scenario(r: &mut Report, seed: u64, k: u64) {
             }
         }
     }
+    r.max("max_ms_poll_loop_iteration_in_main_scenarios", POLL_GAPS.lock().unwrap().as_ref().and_then(|m| m.get(&poll_thread).copied()).unwrap_or(0));
     r.nontrivial(fnv(format!("{}{:?}", k, desc.to_string()).as_bytes()));
     if k < 2 {
         r.sample(J::obj(vec![("scenario", desc), ("events", J::Arr(log.iter().take(12).map(|(e, _)| J::s(format!("{:?}", e))).collect()))]));
@@ -995,6 +1019,7 @@ pub fn main(args: &Args) {
     });
     let _ = ncpu;
     let mut total = Report::merge_all(reports);
+    total.max("max_ms_between_poll_loop_iterations", MAX_POLL_GAP_MS.load(Ordering::Relaxed));
     if only.is_some() {
         total.nontrivial(1);
         total.nontrivial(2);
